@@ -6,7 +6,7 @@ CLAIMED = {
  "C18": dict(
    level="model_checking", design="§3 C18, §2.2",
    technique="stateless model checking of the implementation: exhaustive interleaving exploration (controlled scheduler, happens-before caching) + bounded-exhaustive operation sequences against a reference model",
-   text="Every insert/delete sequence up to depth 5 (6 thorough) over 2 keys with non-monotone/repeated sequence numbers is run on the real MemTable and compared with a reference multi-version map (Get, full iteration order, Seek, immutability). Every interleaving of one writer with one or two lock-free readers (Get, Seek, Contains, full iteration, reader on a table that turns immutable) is explored on the real skiplist with atomics and locks as scheduling points — unbounded for 1 reader, deviation bound 3 (quick) / unbounded (thorough) for 2 readers.",
+   text="Every insert/delete sequence up to depth 5 (6 thorough) over 2 keys with non-monotone/repeated sequence numbers is run on the real MemTable and compared with a reference multi-version map (Get, full iteration order, Seek, immutability). Every interleaving of one writer with one or two lock-free readers (Get, Seek, Contains, full iteration, reader on a table that turns immutable) is explored on the real skiplist with atomics and locks as scheduling points — unbounded for 1 reader, deviation bound 3 (quick) / unbounded (thorough) for 2 readers. The scenarios also run free (no scheduler) in a -race build, 8 / 100 iterations each: a race report outside Close, a panic or a hang is a violation.",
    note="Trusted: Go runtime, the shims' faithfulness to sync/atomic (SC interleavings of visible operations; weak-memory effects and data races are C07's subject). Bounds: 2 keys, <=3 writer operations, <=2 readers."),
  "C11": dict(
    level="exploration", design="§3 C11, §2.3",
@@ -46,7 +46,7 @@ CLAIMED = {
  "C03": dict(
    level="model_checking", design="§3 C03",
    technique="three exhaustive explorations of the implementation: bounded-exhaustive transaction bodies against a map model, crash-point/torn-write enumeration inside commit, and stateless interleaving exploration (controlled scheduler, deviation bound, happens-before caching) of a committer against readers",
-   text="(1) every transaction body of <=3 (4) buffer operations over 2 keys x {commit, rollback, abandon} x pre-states x {now, after reopen}, with caller buffers overwritten after each call, plus batch shapes (1, 3, beyond the 64 KiB log buffer, an entry larger than a record, empty value, commit on a closed engine); (2) every crash state inside a commit of 1/2/3/3x30KiB entries and inside the following write: recovered state holds all or none; (3) every interleaving (deviation bound 2 quick / 3 thorough) of a 2-key commit with Get(a);Get(b), Get(b);Get(a), a read-only transaction and a scan: nobody observes a strict subset.",
+   text="(1) every transaction body of <=3 (4) buffer operations over 2 keys x {commit, rollback, abandon} x pre-states x {now, after reopen}, with caller buffers overwritten after each call, plus batch shapes (1, 3, beyond the 64 KiB log buffer, an entry larger than a record, empty value, commit on a closed engine); (2) every crash state inside a commit of 1/2/3/3x30KiB entries and inside the following write: recovered state holds all or none; (3) every interleaving (deviation bound 2 quick / 3 thorough) of a 2-key commit with Get(a);Get(b), Get(b);Get(a), a read-only transaction and a scan: nobody observes a strict subset. The scenarios also run free (no scheduler) in a -race build, 8 / 100 iterations each: a race report outside Close, a panic or a hang is a violation.",
    note="Process-death crash model; one open known finding (torn write between the records of a batch)."),
  "C12": dict(
    level="model_checking", design="§3 C12",
@@ -56,17 +56,17 @@ CLAIMED = {
  "C06": dict(
    level="model_checking", design="§3 C06, §2.2",
    technique="stateless model checking of the real engine: exhaustive interleaving exploration under a controlled scheduler (deviation bound, happens-before caching) with a porcupine linearizability oracle",
-   text="11 scenarios (2-3 client threads x 1-2 put/get/delete on colliding keys; the engine's own background flush thread; explicit flush and compaction callers; memtable 1 B so that every write switches the table, signals the flush and rotates the log) are explored over all interleavings up to 2 deviations (3 thorough; the two 3-thread scenarios around an explicit flush one less). Every recorded call/return history must be linearizable against a whole-store model with failed writes as no-ops, final reads included; every acknowledged put must be in the log exactly once and no failed put at all.",
+   text="11 scenarios (2-3 client threads x 1-2 put/get/delete on colliding keys; the engine's own background flush thread; explicit flush and compaction callers; memtable 1 B so that every write switches the table, signals the flush and rotates the log) are explored over all interleavings up to 2 deviations (3 thorough; the two 3-thread scenarios around an explicit flush one less). Every recorded call/return history must be linearizable against a whole-store model with failed writes as no-ops, final reads included; every acknowledged put must be in the log exactly once and no failed put at all. The scenarios also run free (no scheduler) in a -race build, 8 / 100 iterations each: a race report outside Close, a panic or a hang is a violation.",
    note="SC interleavings of visible operations; data races are C07's subject. Bounds: threads, operations per thread, deviation bound."),
  "C04": dict(
    level="model_checking", design="§3 C04, §2.2",
    technique="stateless model checking of the real engine: exhaustive interleaving exploration (controlled scheduler, deviation bound, happens-before caching, post-state prediction) with a porcupine strict-serializability oracle over transaction-level operations",
-   text="6 scenarios of 2-3 concurrent transactions (read-modify-write with commit or rollback; read-only with repeated reads and a scan) are explored over all interleavings up to 2 deviations for 2 threads and 1 for 3 threads (thorough: +1). Each transaction is one operation spanning begin..commit with its observed reads and its write set; the history, closed by a final read-only transaction, must be strictly serializable; own writes must be visible inside the transaction; read-only transactions must be repeatable and their scan must equal their reads.",
+   text="6 scenarios of 2-3 concurrent transactions (read-modify-write with commit or rollback; read-only with repeated reads and a scan) are explored over all interleavings up to 2 deviations for 2 threads and 1 for 3 threads (thorough: +1). Each transaction is one operation spanning begin..commit with its observed reads and its write set; the history, closed by a final read-only transaction, must be strictly serializable; own writes must be visible inside the transaction; read-only transactions must be repeatable and their scan must equal their reads. The scenarios also run free (no scheduler) in a -race build, 8 / 100 iterations each: a race report outside Close, a panic or a hang is a violation.",
    note="Non-transactional writes are excluded as in the statement. SC interleavings of visible operations."),
  "C17": dict(
    level="model_checking", design="§3 C17, §2.2",
    technique="bounded-exhaustive call sequences on one transaction plus stateless interleaving exploration of the transaction registry with timeouts, clock jumps and tickers as explorer-chosen environment events; deadlock detection by the scheduler",
-   text="(A) every sequence of <=4 (5) calls {get, put, delete, scan, commit, rollback} on a read-write and a read-only transaction: first finish takes effect once, later calls return the closed error and change nothing, a probe begin is granted afterwards. (B) 8 registry scenarios (begin waiting for the lock while the 10 s timeout fires, abandonment + idle cleanup direct and via ticker, connection cleanup, graceful shutdown, commit racing rollback, stale cleanup racing commit) explored over all interleavings and all ready select cases up to 2 (3) deviations; after every terminal state a probe BeginTransaction(false) must be granted (otherwise the deadlock witness names the blocked call sites), a write is visible iff its commit succeeded, commit and rollback never both succeed.",
+   text="(A) every sequence of <=4 (5) calls {get, put, delete, scan, commit, rollback} on a read-write and a read-only transaction: first finish takes effect once, later calls return the closed error and change nothing, a probe begin is granted afterwards. (B) 8 registry scenarios (begin waiting for the lock while the 10 s timeout fires, abandonment + idle cleanup direct and via ticker, connection cleanup, graceful shutdown, commit racing rollback, stale cleanup racing commit) explored over all interleavings and all ready select cases up to 2 (3) deviations; after every terminal state a probe BeginTransaction(false) must be granted (otherwise the deadlock witness names the blocked call sites), a write is visible iff its commit succeeded, commit and rollback never both succeed. The scenarios also run free (no scheduler) in a -race build, 8 / 100 iterations each: a race report outside Close, a panic or a hang is a violation.",
    note="Virtual time; a client never requests a second transaction while holding one."),
  "C07": dict(
    level="model_checking", design="§3 C07, §2.2",
@@ -86,7 +86,7 @@ CLAIMED = {
  "C16": dict(
    level="model_checking", design="§3 C16",
    technique="computed mutator set (differential run on a read-write twin) over entry points enumerated by reflection, exhaustive interleaving exploration of the replication applier against client mutators, and role reporting of the real replication manager in its three modes",
-   text="Every entry point of *EngineFacade, Transaction and *KevoServiceServer (27 bodies; a new method without body or recorded exclusion is a HARNESS-ERROR) is run on a read-write twin and on the same state in read-only mode: calls that change scan or log on the twin (12 mutators) must return a read-only error and change nothing on the replica, the *Internal bypasses must still take effect, reads must work. The applier (2 replicated entries) is explored against client Put/Delete/BatchWrite over all interleavings up to 2 (3) deviations. replication.Manager is started in standalone/primary/replica mode: GetNodeInfo must report role, primary address and read_only truthfully and a started replica must reject client writes.",
+   text="Every entry point of *EngineFacade, Transaction and *KevoServiceServer (27 bodies; a new method without body or recorded exclusion is a HARNESS-ERROR) is run on a read-write twin and on the same state in read-only mode: calls that change scan or log on the twin (12 mutators) must return a read-only error and change nothing on the replica, the *Internal bypasses must still take effect, reads must work. The applier (2 replicated entries) is explored against client Put/Delete/BatchWrite over all interleavings up to 2 (3) deviations. replication.Manager is started in standalone/primary/replica mode: GetNodeInfo must report role, primary address and read_only truthfully and a started replica must reject client writes. The scenarios also run free (no scheduler) in a -race build, 8 / 100 iterations each: a race report outside Close, a panic or a hang is a violation.",
    note="The window inside Manager.Start before the read-only switch is not flagged. The manager unit uses real loopback listeners."),
  "C13": dict(
    level="model_checking", design="§3 C13, §2.5",
